@@ -698,15 +698,23 @@ func castArr(opts *options, v value) ([]value, Error) {
 	if sub, ok := v.(cfgSub); ok {
 		return sub.c.fields.array(), nil
 	}
-	if ref, ok := v.(*cfgDynamic); ok {
+	// a reference may stand for another reference: follow the chain to what it names
+	for {
+		ref, ok := v.(*cfgDynamic)
+		if !ok {
+			break
+		}
 		unrefed, err := ref.getValue(opts)
 		if err != nil {
 			return nil, raiseMissingMsg(ref.ctx.getParent(), ref.ctx.field, err.Error())
 		}
-
-		if sub, ok := unrefed.(cfgSub); ok {
-			return sub.c.fields.array(), nil
+		if unrefed == nil {
+			break
 		}
+		v = unrefed
+	}
+	if sub, ok := v.(cfgSub); ok {
+		return sub.c.fields.array(), nil
 	}
 
 	l, err := v.Len(opts)
